@@ -3,11 +3,16 @@ C16  Automatic sectioning is used only when the controller can reach the device.
 
 Communication part: two ICT nodes can communicate exactly when a path of in-service ICT lines
 joins them, symmetrically (node failures do not enter: the implementation walks lines only).
-The timing part (automatic isolation within one step / manual sectioning time otherwise) is
-stated on the switching model in `Relsad/Props/C05.lean` and decided on the real code by the check.
+Timing part, on the model of the ICT-based control loops (`Control.checkSensors`, compared state by
+state with the real controllers): when a faulted section is located, the sectioning timer grows by
+at least the manual sectioning time as soon as one of the section's lines has no sensor the
+controller can reach or one of its disconnectors cannot be operated remotely, and by nothing
+at all when every device answers (the breaker check of the same pass then recloses at once).
 -/
 import Relsad.Model.Graph
 import Relsad.Lemmas.GraphL
+import Relsad.Lemmas.ControlInvL
+import Mathlib.Tactic.Linarith
 
 namespace Relsad.C16
 open Relsad.Graph Relation
@@ -51,5 +56,61 @@ theorem ict_no_lines (V : List Nat) (a b : Nat) (ha : a ∈ V) (hab : a ≠ b) :
   cases this with
   | refl => exact hab rfl
   | tail _ h2 => rcases h2 with h2 | h2 <;> simp at h2
+
+
+/-! ### timing -/
+
+open Relsad.Control in
+private theorem remFold_timer (T : ℚ) (ls : List Nat) (s : St) :
+    (ls.foldl (fun (s : St) l => { s with rem := s.rem.set l (gr s.rem l + T) }) s).timer = s.timer := by
+  induction ls generalizing s with
+  | nil => rfl
+  | cons a as ih => simp only [List.foldl_cons]; exact ih _
+
+open Relsad.Control in
+/-- what locating a fault in section `k` does to the sectioning timer of network `n` under ICT-based control -/
+theorem flag_timer (C : Cfg) (n : Nat) (cm : Comm) (s : St) (k : Nat) (hn : n < s.timer.length)
+    (hf : anyFailed s (C.secs.getD k default).lines = true) :
+    gr (flagStepA C n cm s k).timer n =
+      gr s.timer n + ((if needSens C cm k then C.T else 0) + (if needSw C cm k then C.T else 0)) := by
+  unfold flagStepA
+  simp only [hf, if_true]
+  rw [remFold_timer]
+  show gr (s.timer.set n _) n = _
+  unfold gr
+  rw [getD_set_self _ _ _ _ hn]
+  rfl
+
+open Relsad.Control in
+/-- **No automatic isolation without communication**: if the controller cannot reach the sensor of some line of the
+faulted section, or cannot operate one of its disconnectors remotely, locating the fault costs at least the manual
+sectioning time. -/
+theorem unreachable_costs_manual_time (C : Cfg) (n : Nat) (cm : Comm) (s : St) (k : Nat) (hn : n < s.timer.length)
+    (hT : 0 ≤ C.T) (hf : anyFailed s (C.secs.getD k default).lines = true)
+    (hneed : needSens C cm k = true ∨ needSw C cm k = true) :
+    gr s.timer n + C.T ≤ gr (flagStepA C n cm s k).timer n := by
+  rw [flag_timer C n cm s k hn hf]
+  rcases hneed with h | h
+  · rw [h]; simp only [if_true]; split_ifs <;> linarith
+  · rw [h]; simp only [if_true]; split_ifs <;> linarith
+
+open Relsad.Control in
+/-- **Automatic isolation is immediate when every device answers**: the timer is not touched, so the breaker check of
+the same control pass finds it run out. -/
+theorem reachable_costs_nothing (C : Cfg) (n : Nat) (cm : Comm) (s : St) (k : Nat) (hn : n < s.timer.length)
+    (hf : anyFailed s (C.secs.getD k default).lines = true)
+    (h1 : needSens C cm k = false) (h2 : needSw C cm k = false) :
+    gr (flagStepA C n cm s k).timer n = gr s.timer n := by
+  rw [flag_timer C n cm s k hn hf, h1, h2]; simp
+
+open Relsad.Control in
+/-- a section needs manual attention exactly when one of its lines has no reachable sensor -/
+theorem needSens_iff (C : Cfg) (cm : Comm) (k : Nat) :
+    needSens C cm k = true ↔ ∃ l ∈ (C.secs.getD k default).lines, gb cm.sensor l = false := by
+  unfold needSens
+  rw [List.any_eq_true]
+  constructor
+  · rintro ⟨l, hl, h⟩; exact ⟨l, hl, by simpa using h⟩
+  · rintro ⟨l, hl, h⟩; exact ⟨l, hl, by simp [h]⟩
 
 end Relsad.C16
